@@ -128,7 +128,9 @@ func crlScenario(o *origin, dir string, disk, background, configured bool, d tim
 		fetch = config.CRLFetchModeBackground
 	}
 	cfg := &config.CRLConfig{WorkDir: dir, CDPConfig: &config.CDPConfig{CRLFetchModeParsed: fetch}, SignatureValidationModeParsed: config.SignatureValidationModeVerify,
-		StorageTypeParsed: st, UpdateIntervalParsed: 15 * time.Millisecond, TrustedSignatureCerts: []*x509.Certificate{p.CA.Cert}}
+		StorageTypeParsed: st, UpdateIntervalParsed: 15 * time.Millisecond,
+		// three trusted signers besides the CA itself (four: a list with spare capacity if somebody appends to it)
+		TrustedSignatureCerts: []*x509.Certificate{p.CA.Cert, p.OtherCA.Cert, p.CARSA.Cert}}
 	if configured {
 		cfg.CRLUrls = []string{urlCfg}
 	}
